@@ -48,6 +48,9 @@ func pathKey(path []*spec, leaf *spec) string {
 // enter: the first leaf executed when control reaches node n inside `path`.
 func (f *flattener) enter(path []*spec, n *spec) *flatState {
 	for n.flow != nil {
+		if len(path) > 6 {
+			return nil // recursion deeper than the scripts ever go
+		}
 		path = append(append([]*spec(nil), path...), n)
 		n = n.flow.start
 	}
@@ -86,6 +89,9 @@ func flatten(root *spec, alpha []flyt.Action) (*spec, map[*spec]*flatState) {
 		for _, a := range alpha {
 			if nx := f.next(st, a); nx != nil {
 				setEdge(flatRoot, st.flat, a, nx.flat)
+			}
+			if len(f.order) > 400 {
+				break
 			}
 		}
 	}
@@ -247,6 +253,9 @@ func genC10(tier string) []Scenario {
 		depth = 4
 	}
 	for i, d := range enumShapes(depth, true) {
+		if d.uses(shFlowRetry) {
+			continue // a retrying flow is not a plain state machine: covered by C04
+		}
 		out = append(out, nestedScenario(fmt.Sprintf("nested-vs-flat shape#%d=%s", i, d), d))
 		if d.slot >= 0 && (tier == "thorough" || d.inner.slot < 0) {
 			out = append(out, nestedScenarioOpt(fmt.Sprintf("nested-vs-flat after-standalone-runs shape#%d=%s", i, d), d, true))
